@@ -6,6 +6,7 @@ from .. import gen, probe
 from ..drive import call, expect_refusal
 from ..shard import Workload
 from ._common import arm_tt
+from . import ambient
 
 P = 'C01'
 tt = None
@@ -19,7 +20,7 @@ def setup(ctx):
 def _pair(rng, kind=None, **kw):
     rows, cols, ra = gen.rand_shape(rng, kind=kind, **kw)
     rb = gen.rand_ranks(rng, len(rows), 4)
-    ca, cb = [(False, False), (True, True), (True, False), (False, True)][int(rng.integers(0, 4))]
+    ca, cb = gen.rand_cplx(rng), gen.rand_cplx(rng)
     return gen.rand_tt(rng, rows, cols, ra, ca), gen.rand_tt(rng, rows, cols, rb, cb)
 
 
@@ -34,13 +35,13 @@ def w_binary(ctx, rng, idx):
         c = gen.rand_tt(rng, a.row_dims[:-1] + [a.row_dims[-1] + 1], a.col_dims, a.ranks)
         expect_refusal('TT.__add__', lambda: a + c)
     if idx < 3:
-        ctx.sample({'workload': 'binary', 'a': {'row_dims': a.row_dims, 'col_dims': a.col_dims, 'ranks': a.ranks, 'complex': bool(np.iscomplexobj(a.cores[0]))},
-                    'b': {'ranks': b.ranks, 'complex': bool(np.iscomplexobj(b.cores[0]))}, 'ops': ['a+b', 'a-b', 'a+a', 'b-b']})
+        ctx.sample({'workload': 'binary', 'a': {'row_dims': a.row_dims, 'col_dims': a.col_dims, 'ranks': a.ranks, 'complex': [bool(np.iscomplexobj(c)) for c in a.cores]},
+                    'b': {'ranks': b.ranks, 'complex': [bool(np.iscomplexobj(c)) for c in b.cores]}, 'ops': ['a+b', 'a-b', 'a+a', 'b-b']})
 
 
 def w_scalar(ctx, rng, idx):
     rows, cols, r = gen.rand_shape(rng)
-    a = gen.rand_tt(rng, rows, cols, r, bool(rng.integers(0, 2)))
+    a = gen.rand_tt(rng, rows, cols, r, gen.rand_cplx(rng))
     s = gen.rand_scalar(rng)
     ctx.describe({'op': '*', 'scalar': repr(s), 'a': [rows, cols, r]})
     call('TT.__mul__', lambda: a * s, prop=P)
@@ -66,7 +67,7 @@ def w_matmul(ctx, rng, idx):
     elif k == 2:
         m = list(n)
         p = list(n)  # square
-    ca, cb = bool(rng.integers(0, 2)), bool(rng.integers(0, 2))
+    ca, cb = gen.rand_cplx(rng), gen.rand_cplx(rng)
     a = gen.rand_tt(rng, m, n, gen.rand_ranks(rng, d, 3), ca)
     b = gen.rand_tt(rng, n, p, gen.rand_ranks(rng, d, 3), cb)
     ctx.describe({'op': '@', 'm': m, 'n': n, 'p': p, 'ra': a.ranks, 'rb': b.ranks, 'complex': [ca, cb]})
@@ -83,7 +84,7 @@ def w_matmul(ctx, rng, idx):
 
 def w_views(ctx, rng, idx):
     rows, cols, r = gen.rand_shape(rng, size_cap=2048)
-    cplx = bool(rng.integers(0, 2))
+    cplx = gen.rand_cplx(rng)
     a = gen.rand_tt(rng, rows, cols, r, cplx)
     d = a.order
     ctx.describe({'op': 'full/matricize/element/transpose/conj/copy/norm', 'a': [rows, cols, r], 'complex': cplx})
@@ -126,7 +127,7 @@ def w_residual(ctx, rng, idx):
     d = int(rng.integers(1, 5))
     m = gen.rand_dims(rng, d, 3)
     n = gen.rand_dims(rng, d, 3)
-    cplx = [bool(x) for x in rng.integers(0, 2, size=3)]
+    cplx = [gen.rand_cplx(rng) for _ in range(3)]
     A = gen.rand_tt(rng, m, n, gen.rand_ranks(rng, d, 3), cplx[0])
     x = gen.rand_tt(rng, n, [1] * d, gen.rand_ranks(rng, d, 3), cplx[1])
     b = gen.rand_tt(rng, m, [1] * d, gen.rand_ranks(rng, d, 3), cplx[2])
@@ -164,6 +165,7 @@ WORKLOADS = [
     Workload('views', w_views, 240, 3000),
     Workload('residual', w_residual, 300, 4000),
     Workload('constructors', w_constructors, 150, 2000),
+    ambient.WORKLOAD,
 ]
 
 REQUIRED = ['C01|TT.__add__:value', 'C01|TT.__sub__:value', 'C01|TT.__mul__:value', 'C01|TT.__rmul__:value',
